@@ -1,9 +1,11 @@
-SPECIFICATION Spec
+SPECIFICATION SSpec
 CONSTANTS
-  ObjRecs <- MC_ObjRecs
-  ConRecs <- MC_ConRecs
-  MaxCons = 2
-  Methods <- MC_Methods
+  ObjRecs = {}
+  ConRecs = {}
+  MaxCons = 1
+  Senses = {"minimize"}
+  SchedObjs <- MC_Objs
+  Methods = {}
   FaultExcs <- MC_Excs
   OnlySuccess = FALSE
   EditInvalidates = TRUE
@@ -13,14 +15,11 @@ CONSTANTS
   RestoreInFinally = TRUE
   FeasCheckAlways = TRUE
   FaultKeepsCaches = TRUE
-INVARIANT TypeOK
 INVARIANT C13_CachesCoherent
 INVARIANT C13_SolveFresh
-INVARIANT C12_NoFrozenParam
 INVARIANT C18_NoSilentRelax
 INVARIANT C18_StrictRaisesFirst
 INVARIANT C06_OptimalFeasible
 INVARIANT C20_GlobalsRestored
 INVARIANT C20_FaultOutcome
-PROPERTY C20_FaultKeepsCaches
 CHECK_DEADLOCK FALSE
